@@ -11,6 +11,8 @@ use std::collections::BTreeMap;
 
 /// A generated "binary flow" program with its expected result.
 pub struct BinProg {
+    /// same program, but the root function returns 0: everything it held becomes unreachable
+    pub src_drop: String,
     pub src: String,
     pub expect: CV,
     pub flows: Vec<&'static str>,
@@ -42,7 +44,7 @@ pub fn gen_binprog(rng: &mut Rng) -> BinProg {
     let nf = 1 + rng.below(4);
     for j in 0..nf {
         let pick = |rng: &mut Rng| rng.pick(&bins).clone();
-        match rng.below(8) {
+        match rng.below(11) {
             0 => {
                 // spawn with k captured binaries
                 let k = 1 + rng.below(3);
@@ -111,6 +113,38 @@ pub fn gen_binprog(rng: &mut Rng) -> BinProg {
                 results.push((format!("r{}", j), cvb(&a.1)));
                 flows.push("mailbox_leftovers");
             }
+            7 => {
+                // the same process awaited twice (the awaiter's result slot is written twice)
+                let a = pick(rng); let c = pick(rng);
+                steps.push(format!("p{} = @#{{ [{}, {}] }}", j, a.0, c.0));
+                steps.push(format!("r{}a = !p{}", j, j));
+                steps.push(format!("r{}b = !p{}", j, j));
+                steps.push(format!("r{} = [r{}a, r{}b]", j, j, j));
+                let t = tup(vec![cvb(&a.1), cvb(&c.1)]);
+                results.push((format!("r{}", j), tup(vec![t.clone(), t])));
+                flows.push("await_twice");
+            }
+            8 => {
+                // one process awaited by two other processes and by the root
+                let a = pick(rng);
+                steps.push(format!("p{} = @#{{ [{}, 0x00] __binary_concat__ }}", j, a.0));
+                steps.push(format!("q{}a = @#{{ v = !p{}, [v, v __binary_length__] }}", j, j));
+                steps.push(format!("q{}b = @#{{ v = !p{}, v }}", j, j));
+                steps.push(format!("r{} = [!q{}a, !q{}b, !p{}]", j, j, j, j));
+                let mut v = a.1.clone(); v.push(0);
+                results.push((format!("r{}", j), tup(vec![tup(vec![cvb(&v), CV::int(v.len() as i64)]), cvb(&v), cvb(&v)])));
+                flows.push("several_awaiters");
+            }
+            9 => {
+                // race two processes and a timeout; the losers' results arrive after the select is over
+                let a = pick(rng); let c = pick(rng);
+                steps.push(format!("p{}a = @#{{ {} }}", j, a.0));
+                steps.push(format!("p{}b = @#{{ {} }}", j, c.0));
+                steps.push(format!("w{} = ! [&p{}a, &p{}b, 100000]", j, j, j));
+                steps.push(format!("r{} = [!p{}a, !p{}b, w{} __binary_length__ {{ ={} => 1 | ={} => 1 | 0 }}]", j, j, j, j, a.1.len(), c.1.len()));
+                results.push((format!("r{}", j), tup(vec![cvb(&a.1), cvb(&c.1), CV::int(1)])));
+                flows.push("race_then_await_losers");
+            }
             _ => {
                 // select whose source list holds a closure capturing a binary; a filter that inspects it
                 let a = pick(rng); let c = pick(rng);
@@ -132,8 +166,11 @@ pub fn gen_binprog(rng: &mut Rng) -> BinProg {
     let mut fields: Vec<String> = results.iter().map(|r| r.0.clone()).collect();
     let mut exp: Vec<CV> = results.iter().map(|r| r.1.clone()).collect();
     for (n, b) in &bins { fields.push(n.clone()); exp.push(cvb(b)); }
+    let mut steps_drop = steps.clone();
+    steps_drop.push(format!("keep = [{}]", fields.join(", ")));
+    steps_drop.push("0".into());
     steps.push(format!("[{}]", fields.join(", ")));
-    BinProg { src: format!("main = #{{\n  {}\n}},\nmain\n", steps.join(",\n  ")), expect: tup(exp), flows }
+    BinProg { src_drop: format!("main = #{{\n  {}\n}},\nmain\n", steps_drop.join(",\n  ")), src: format!("main = #{{\n  {}\n}},\nmain\n", steps.join(",\n  ")), expect: tup(exp), flows }
 }
 
 fn heap_witness(src: &str, cfg: &SchedCfg, sim: &Sim) -> serde_json::Value {
@@ -193,6 +230,18 @@ pub fn check(rep: &Report) {
                 RunEnd::Trouble(t) => { viol(format!("C06:trouble:{}", trouble_sig(t)), format!("{:?}", t)); continue; }
                 RunEnd::Stopped => {}
             }
+            // drop variant on the same schedule: only heap accounting is judged
+            if let Ok(bcd) = compile_entry(&bp.src_drop, &b) {
+                let (endd, simd, _, _) = run_monitored(&bcd, &b, cfg);
+                rep.eval(1);
+                record_obs(rep, &simd);
+                rep.count("drop_variant_runs", 1);
+                if let Some((w, hv)) = &simd.heap_violation {
+                    rep.violation(Violation { signature: format!("C06:{}:after-drop", hv.kind), what: format!("worker {} after step {}: {} (flows: {:?}; the root function returns a scalar, so all its binaries are dropped)", w, simd.actions.len(), hv.detail, bp.flows), witness: heap_witness(&bp.src_drop, cfg, &simd) });
+                } else if let RunEnd::Trouble(t) = &endd {
+                    rep.violation(Violation { signature: format!("C06:trouble:{}", trouble_sig(t)), what: format!("{:?}", t), witness: heap_witness(&bp.src_drop, cfg, &simd) });
+                }
+            }
             match root.map(|r| canon_root(&sim, &r, root_pid)) {
                 Some(Fate::Done(v)) => { if v != bp.expect { viol(format!("C06:content:{}", first_bad_flow(&v, &bp)), format!("binaries read back wrong: got {} want {}", v.show(), bp.expect.show())); } else { rep.count("programs_read_back_exactly", 1); } }
                 Some(Fate::Failed(e)) => viol("C06:program-failed".into(), format!("{:?}", e)),
@@ -200,6 +249,7 @@ pub fn check(rep: &Report) {
             }
         }
     });
+    select_workload(rep, &b);
     // (2) message-passing scenarios with binaries (confluent, fan-in and failing), monitor on
     let n_scen = if quick { 1500 } else { 25000 };
     let n_sched2 = if quick { 8 } else { 30 };
@@ -226,6 +276,32 @@ pub fn check(rep: &Report) {
                 let expect: BTreeMap<String, CV> = model.fates.iter().map(|(n, f)| (names[n].clone(), match f { ModelFate::Done(v) => v.to_cv(&names), _ => unreachable!() })).collect();
                 for (name, want) in &expect { if let Some(Fate::Done(g)) = f.get(name) { if g != want { viol("C06:content:scenario".into(), format!("{}: {} want {}", name, g.show(), want.show())); } } }
             }
+        }
+    });
+}
+
+/// (3) select scenarios of C05 (filters, awaits, timeouts, failing helpers, binary messages) with the
+/// heap monitor on and arbitrary quanta; only heap accounting is judged here.
+fn select_workload(rep: &Report, b: &qv::Builtins) {
+    let quick = rep.quick();
+    let n = if quick { 3000 } else { 40000 };
+    let n_sched = if quick { 8 } else { 30 };
+    crate::pool::run_indexed(n, 256, |i| {
+        let mut rng = Rng::derive(rep.seed, "C06sel", 0, i as u64);
+        let sc = crate::c05::gen_sel(&mut rng);
+        if !sc.eventually_ready() { return; }
+        let src = sc.emit_opts(i % 2 == 1);
+        let Ok(bc) = compile_entry(&src, b) else { return; };
+        rep.count("select_workloads", 1);
+        if i % 2 == 1 { rep.count("select_workloads_drop_variant", 1); }
+        let scheds = sched_variants(&mut rng, n_sched);
+        for (k, cfg) in scheds.iter().enumerate() {
+            let run = crate::c05::run_one(&sc, &bc, b, cfg, true, k % 2 == 0);
+            rep.eval(1);
+            record_obs(rep, &run.sim);
+            let viol = |sig: String, what: String| rep.violation(Violation { signature: sig, what, witness: heap_witness(&src, cfg, &run.sim) });
+            if let Some((w, hv)) = &run.sim.heap_violation { viol(format!("C06:{}:select", hv.kind), format!("worker {} after step {}: {}", w, run.sim.actions.len(), hv.detail)); continue; }
+            if let RunEnd::Trouble(t) = &run.end { viol(format!("C06:trouble:{}", trouble_sig(t)), format!("{:?}", t)); }
         }
     });
 }
